@@ -1145,6 +1145,174 @@ package process
 //@   callsite[C04] C04.dupFwdChild process.NewProcess#2: arg0 == newProcessBody && arg1 == freshChannels[i]
 //@   callsite[C04] C04.dupEnds (*process.Process).terminate#1: arg0 == process
 
+
+// ---- the same table for the non-polarised interpreter (transition_np.go); forwarding differs (control channels)
+// SND (provider): self!{SND, u, v}, then the process ends.  RCV (client): w!{RCV, u, self}; the receiver takes over self.
+//@ contract (*SendForm).TransitionNP
+//@   requires[C04] len(process.Providers) >= 1
+//@   callsite[C04] C04.npsndMsg process.TransitionBySendingNP#1: f.to_c.IsSelf && arg3.Rule == SND && arg3.Channel1 == f.payload_c && arg3.Channel2 == f.continuation_c && arg1 == process.Providers[0].Channel
+//@   callsite[C04] C04.nprcvMsg process.TransitionBySendingNP#2: !f.to_c.IsSelf && f.continuation_c.IsSelf && arg3.Rule == RCV && arg3.Channel1 == f.payload_c && arg3.Channel2 == process.Providers[0] && arg1 == f.to_c.Channel
+//@ contract (*SendForm).TransitionNP$1
+//@   callsite[C04] C04.npsndEnds (*process.Process).terminate#1: arg0 == process
+//@ contract (*SendForm).TransitionNP$2
+//@   callsite[C04] C04.nprcvHandsOver (*process.Process).renamed#1: arg0 == process && arg1 == process.Providers && len(arg2) == 1 && arg2[0] == f.to_c
+
+// <x,y> <- recv self; P (RCV, provider): self?; body := P[u/x][self/y]; providers := [v].
+// <x,y> <- recv w; P (SND, client): w?; body := P[u/x][v/y].
+//@ contract (*ReceiveForm).TransitionNP
+//@   requires[C04] len(process.Providers) >= 1
+//@   callsite[C04] C04.nprcvOnSelf process.TransitionByReceivingNP#1: f.from_c.IsSelf && arg0 == process && arg1 == process.Providers[0].Channel
+//@   callsite[C04] C04.npsndFromClient process.TransitionByReceivingNP#2: !f.from_c.IsSelf && arg0 == process && arg1 == f.from_c.Channel
+//@ contract (*ReceiveForm).TransitionNP$1
+//@   callsite[C04] C04.nprcvPayload process.Form.Substitute#1: message.Rule == RCV && arg0 == f.continuation_e && arg1 == f.payload_c && arg2 == message.Channel1
+//@   callsite[C04] C04.nprcvSelf process.Form.Substitute#2: arg0 == f.continuation_e && arg1 == f.continuation_c && arg2.IsSelf && arg2.Channel == nil
+//@   callsite[C04] C04.nprcvStep (*process.Process).transitionLoopNP#1: arg0 == process && process.Body == f.continuation_e && len(process.Providers) == 1 && process.Providers[0] == message.Channel2
+//@ contract (*ReceiveForm).TransitionNP$2
+//@   callsite[C04] C04.npsndPayload process.Form.Substitute#1: message.Rule == SND && arg0 == f.continuation_e && arg1 == f.payload_c && arg2 == message.Channel1
+//@   callsite[C04] C04.npsndCont process.Form.Substitute#2: arg0 == f.continuation_e && arg1 == f.continuation_c && arg2 == message.Channel2
+//@   callsite[C04] C04.npsndStep (*process.Process).transitionLoopNP#1: arg0 == process && process.Body == f.continuation_e && process.Providers == old(process.Providers)
+
+// self.l<v> (SEL, provider): self!{SEL, v, l}, then the process ends.  w.l<self> (BRA, client): w!{BRA, self, l}.
+//@ contract (*SelectForm).TransitionNP
+//@   requires[C04] len(process.Providers) >= 1
+//@   callsite[C04] C04.npselMsg process.TransitionBySendingNP#1: f.to_c.IsSelf && arg0 == process && arg3.Rule == SEL && arg3.Channel1 == f.continuation_c && arg3.Label == f.label && arg1 == process.Providers[0].Channel
+//@   callsite[C04] C04.npbraMsg process.TransitionBySendingNP#2: !f.to_c.IsSelf && f.continuation_c.IsSelf && arg0 == process && arg3.Rule == BRA && arg3.Channel1 == process.Providers[0] && arg3.Label == f.label && arg1 == f.to_c.Channel
+//@ contract (*SelectForm).TransitionNP$1
+//@   callsite[C04] C04.npselEnds (*process.Process).terminate#1: arg0 == process
+//@ contract (*SelectForm).TransitionNP$2
+//@   callsite[C04] C04.npbraHandsOver (*process.Process).renamed#1: arg0 == process && arg1 == process.Providers && len(arg2) == 1 && arg2[0] == f.to_c
+
+// case self (...) (BRA, provider): self?; body := the first branch whose label is the received one, [self/p]; providers := [u].
+// case w (...) (SEL, client): w?; body := that branch, [u/p].
+//@ contract (*CaseForm).TransitionNP
+//@   requires[C04] len(process.Providers) >= 1
+//@   callsite[C04] C04.npbraOnSelf process.TransitionByReceivingNP#1: f.from_c.IsSelf && arg0 == process && arg1 == process.Providers[0].Channel
+//@   callsite[C04] C04.npselFromClient process.TransitionByReceivingNP#2: !f.from_c.IsSelf && arg0 == process && arg1 == f.from_c.Channel
+//@ contract (*CaseForm).TransitionNP$1
+//@   loop[C04] 1 invariant !found && (forall j int :: 0 <= j && j <= idx ==> f.branches[j].label.L != message.Label.L)
+//@   callsite[C04] C04.npbraBranch process.Form.Substitute#1: message.Rule == BRA && firstBranch(f, message.Label, idx1 + 1) && arg0 == f.branches[idx1 + 1].continuation_e && arg1 == f.branches[idx1 + 1].payload_c && arg2.IsSelf && arg2.Channel == nil
+//@   callsite[C04] C04.npbraStep (*process.Process).transitionLoopNP#1: arg0 == process && firstBranch(f, message.Label, idx1 + 1) && process.Body == f.branches[idx1 + 1].continuation_e && len(process.Providers) == 1 && process.Providers[0] == message.Channel1
+//@ contract (*CaseForm).TransitionNP$2
+//@   loop[C04] 1 invariant !found && (forall j int :: 0 <= j && j <= idx ==> f.branches[j].label.L != message.Label.L)
+//@   callsite[C04] C04.npselBranch process.Form.Substitute#1: message.Rule == SEL && firstBranch(f, message.Label, idx1 + 1) && arg0 == f.branches[idx1 + 1].continuation_e && arg1 == f.branches[idx1 + 1].payload_c && arg2 == message.Channel1
+//@   callsite[C04] C04.npselStep (*process.Process).transitionLoopNP#1: arg0 == process && firstBranch(f, message.Label, idx1 + 1) && process.Body == f.branches[idx1 + 1].continuation_e && process.Providers == old(process.Providers)
+
+// close self (CLS): self!{CLS}, then the process ends.  wait w; P: w?; only a CLS lets P run.
+//@ contract (*CloseForm).TransitionNP
+//@   requires[C04] len(process.Providers) >= 1
+//@   callsite[C04] C04.npclsMsg process.TransitionBySendingNP#1: f.from_c.IsSelf && arg0 == process && arg3.Rule == CLS && arg1 == process.Providers[0].Channel
+//@ contract (*CloseForm).TransitionNP$1
+//@   callsite[C04] C04.npclsEnds (*process.Process).terminate#1: arg0 == process
+//@ contract (*WaitForm).TransitionNP
+//@   callsite[C04] C04.npwaitWaits process.TransitionByReceivingNP#1: arg0 == process && arg1 == f.to_c.Channel
+//@ contract (*WaitForm).TransitionNP$1
+//@   callsite[C04] C04.npwaitStep (*process.Process).transitionLoopNP#1: message.Rule == CLS && arg0 == process && process.Body == f.continuation_e && process.Providers == old(process.Providers)
+
+// cast self<v> (CST, provider): self!{CST, v}.  cast w<self> (SHF, client): w!{SHF, self}.
+//@ contract (*CastForm).TransitionNP
+//@   requires[C04] len(process.Providers) >= 1
+//@   callsite[C04] C04.npcstMsg process.TransitionBySendingNP#1: f.to_c.IsSelf && arg0 == process && arg3.Rule == CST && arg3.Channel1 == f.continuation_c && arg1 == process.Providers[0].Channel
+//@   callsite[C04] C04.npshfMsg process.TransitionBySendingNP#2: !f.to_c.IsSelf && f.continuation_c.IsSelf && arg0 == process && arg3.Rule == SHF && arg3.Channel1 == process.Providers[0] && arg1 == f.to_c.Channel
+//@ contract (*CastForm).TransitionNP$1
+//@   callsite[C04] C04.npcstEnds (*process.Process).terminate#1: arg0 == process
+//@ contract (*CastForm).TransitionNP$2
+//@   callsite[C04] C04.npshfHandsOver (*process.Process).renamed#1: arg0 == process && arg1 == process.Providers && len(arg2) == 1 && arg2[0] == f.to_c
+
+// y <- shift self; P (SHF, provider): self?; body := P[self/y]; providers := [u].  y <- shift w; P (CST, client): w?; body := P[u/y].
+//@ contract (*ShiftForm).TransitionNP
+//@   requires[C04] len(process.Providers) >= 1
+//@   callsite[C04] C04.npshfOnSelf process.TransitionByReceivingNP#1: f.from_c.IsSelf && arg0 == process && arg1 == process.Providers[0].Channel
+//@   callsite[C04] C04.npcstFromClient process.TransitionByReceivingNP#2: !f.from_c.IsSelf && arg0 == process && arg1 == f.from_c.Channel
+//@ contract (*ShiftForm).TransitionNP$1
+//@   callsite[C04] C04.npshfSelf process.Form.Substitute#1: message.Rule == SHF && arg0 == f.continuation_e && arg1 == f.continuation_c && arg2.IsSelf && arg2.Channel == nil
+//@   callsite[C04] C04.npshfStep (*process.Process).transitionLoopNP#1: arg0 == process && process.Body == f.continuation_e && len(process.Providers) == 1 && process.Providers[0] == message.Channel1
+//@ contract (*ShiftForm).TransitionNP$2
+//@   callsite[C04] C04.npcstPayload process.Form.Substitute#1: message.Rule == CST && arg0 == f.continuation_e && arg1 == f.continuation_c && arg2 == message.Channel1
+//@   callsite[C04] C04.npcstStep (*process.Process).transitionLoopNP#1: arg0 == process && process.Body == f.continuation_e && process.Providers == old(process.Providers)
+
+// print l; P: writes "> l", then body := P.   drop x; P: a droppable forward takes x; body := P.
+//@ contract (*PrintForm).TransitionNP
+//@   callsite[C04] C04.npprintInternal process.TransitionInternallyNP#1: arg0 == process
+//@ contract (*PrintForm).TransitionNP$1
+//@   callsite[C04] C04.npprintLine fmt.Printf#1: arg0 == "> %s\n"
+//@   callsite[C04] C04.npprintStep (*process.Process).transitionLoopNP#1: arg0 == process && process.Body == f.continuation_e && process.Providers == old(process.Providers)
+//@ contract (*DropForm).TransitionNP
+//@   callsite[C04] C04.npdropInternal process.TransitionInternallyNP#1: !f.client_c.IsSelf && arg0 == process
+//@ contract (*DropForm).TransitionNP$1
+//@   callsite[C04] C04.npdropStep (*process.Process).transitionLoopNP#1: arg0 == process && process.Body == f.continuation_e && process.Providers == old(process.Providers)
+
+// y <- new b; Q (CUT): a fresh channel d; a new process (b, provider d) is spawned; body := Q[d/y].
+//@ contract (*NewForm).TransitionNP
+//@   callsite[C04] C04.npcutInternal process.TransitionInternallyNP#1: arg0 == process
+//@ contract (*NewForm).TransitionNP$1
+//@   callsite[C04] C04.npcutSubst process.Form.Substitute#1: arg0 == f.continuation_e && arg1 == f.new_name_c && arg2 == newChannel && !arg2.IsSelf
+//@   callsite[C04] C04.npcutChild process.NewProcess#1: arg0 == f.body && len(arg1) == 1 && arg1[0] == newChannel
+//@   callsite[C04] C04.npcutSpawn (*process.Process).SpawnThenTransitionNP#1: arg0 == newProcess && arg0 != process
+//@   callsite[C04] C04.npcutStep (*process.Process).transitionLoopNP#1: arg0 == process && process.Body == f.continuation_e && process.Providers == old(process.Providers)
+
+// <a,b> <- split x; P (SPLIT): fresh d1, d2; body := P[d1/a][d2/b]; a forwarder providing [d1, d2] from x is spawned.
+//@ contract (*SplitForm).TransitionNP
+//@   callsite[C04] C04.npsplitInternal process.TransitionInternallyNP#1: !f.from_c.IsSelf && arg0 == process && len(newSplitNames) == 2
+//@ contract (*SplitForm).TransitionNP$1
+//@   callsite[C04] C04.npsplitOne process.Form.Substitute#1: arg0 == f.continuation_e && arg1 == f.channel_one && arg2 == newSplitNames[0]
+//@   callsite[C04] C04.npsplitTwo process.Form.Substitute#2: arg0 == f.continuation_e && arg1 == f.channel_two && arg2 == newSplitNames[1]
+//@   callsite[C04] C04.npsplitFwd process.NewForward#1: arg0.IsSelf && arg1 == f.from_c
+//@   callsite[C04] C04.npsplitChild process.NewProcess#1: arg0 == newProcessBody && arg1 == newSplitNames
+//@   callsite[C04] C04.npsplitSpawn (*process.Process).SpawnThenTransitionNP#1: arg0 == newProcess && arg0 != process
+//@   callsite[C04] C04.npsplitStep (*process.Process).transitionLoopNP#1: arg0 == process && process.Body == f.continuation_e && process.Providers == old(process.Providers)
+
+// f(ps) (CALL): body := a copy of the definition's body with the arguments for the parameters; the definition is left alone.
+//@ contract (*CallForm).TransitionNP
+//@   callsite[C04] C04.npcallInternal process.TransitionInternallyNP#1: arg0 == process
+//@ contract (*CallForm).TransitionNP$1
+//@   callsite[C04] C04.npcallLookup process.GetFunctionByNameArity#1: arg1 == f.functionName && arg2 == len(f.parameters)
+//@   callsite[C04] C04.npcallCopies process.CopyForm#1: arg0 == functionCall.Body
+//@   callsite[C04] C04.npcallArgs1 process.Form.Substitute#1: arg0 == functionCallBody && arg1 == functionCall.Parameters[i] && arg2 == f.parameters[i]
+//@   callsite[C04] C04.npcallSelf process.Form.Substitute#2: arg0 == functionCallBody && arg1 == functionCall.ExplicitProvider && arg2 == f.parameters[0]
+//@   callsite[C04] C04.npcallArgs2 process.Form.Substitute#3: arg0 == functionCallBody && 1 <= i && arg1 == functionCall.Parameters[i - 1] && arg2 == f.parameters[i]
+//@   callsite[C04] C04.npcallArgs3 process.Form.Substitute#4: arg0 == functionCallBody && arg1 == functionCall.Parameters[i] && arg2 == f.parameters[i]
+//@   callsite[C04] C04.npcallArgs4 process.Form.Substitute#5: arg0 == functionCallBody && 1 <= i && arg1 == functionCall.Parameters[i - 1] && arg2 == f.parameters[i]
+//@   loop[C04] 2 invariant 1 <= i
+//@   loop[C04] 4 invariant 1 <= i
+//@   callsite[C04] C04.npcallStep (*process.Process).transitionLoopNP#1: arg0 == process && process.Body == functionCallBody && process.Providers == old(process.Providers)
+//@   callsite[C04] C04.npcallFresh (*process.Process).transitionLoopNP#1: functionCallBody == nil || born(functionCallBody) >= old(allocCounter())
+
+// DUP: a process with providers p1..pn becomes n processes, the i-th a copy of the body providing pi in which the
+// k-th free name is the fresh channel c[k][i]; per free name k a forwarder provides c[k][1..n] from it; the original ends.
+//@ contract (*Process).performDUPruleNP
+//@   callsite[C04] C04.npdupCopies process.CopyForm#1: arg0 == process.Body
+//@   callsite[C04] C04.npdupRenames process.Form.Substitute#1: arg0 == newDuplicatedProcessBody && arg1 == processFreeNames[k] && arg2 == freshChannels[k][i]
+//@   callsite[C04] C04.npdupChild process.NewProcess#1: arg0 == newDuplicatedProcessBody && len(arg1) == 1 && arg1[0] == newProcessNames[i] && newProcessNames == old(process.Providers)
+//@   callsite[C04] C04.npdupFresh process.NewProcess#1: arg0 == nil || born(arg0) >= old(allocCounter())
+//@   callsite[C04] C04.npdupFwd process.NewForward#1: arg0.IsSelf && arg1 == processFreeNames[i]
+//@   callsite[C04] C04.npdupFwdChild process.NewProcess#2: arg0 == newProcessBody && arg1 == freshChannels[i]
+//@   callsite[C04] C04.npdupEnds (*process.Process).terminate#1: arg0 == process
+
+
+//@ contract (*Process).transitionLoopNP
+//@   callsite[C04] C04.nploopDispatch process.Form.TransitionNP#1: arg0 == process.Body && arg1 == process && arg2 == re
+//@ contract TransitionBySendingNP
+//@   callsite[C04] C04.npsendDup (*process.Process).performDUPruleNP#1: arg0 == process && len(process.Providers) > 1 && sent[toChan] == old(sent[toChan])
+//@   callsite[C04] C04.npsendCtl process.handleControlMessageNP#1: arg0 == process && sent[toChan] == old(sent[toChan])
+//@   callsite[C04] C04.npsendThenContinue continuationFunc#1: len(process.Providers) <= 1 && sent[toChan] == old(sent[toChan]) + 1 && lastSent[toChan] == sendingMessage
+//@ contract TransitionByReceivingNP
+//@   callsite[C04] C04.nprecvDup (*process.Process).performDUPruleNP#1: arg0 == process && len(process.Providers) > 1
+//@   callsite[C04] C04.nprecvCtl process.handleControlMessageNP#1: arg0 == process
+//@   callsite[C04] C04.nprecvThenContinue processMessageFunc#1: len(process.Providers) <= 1
+//@ contract TransitionInternallyNP
+//@   callsite[C04] C04.npinternalDup (*process.Process).performDUPruleNP#1: arg0 == process && len(process.Providers) > 1
+//@   callsite[C04] C04.npinternalCtl process.handleControlMessageNP#1: arg0 == process
+//@   callsite[C04] C04.npinternalStep internalFunction#1: len(process.Providers) <= 1
+//@ contract handleControlMessageNP
+//@   callsite[C04] C04.npctlFwd process.fwdhandleControlMessageNP#1: arg0 == process && cm.Action == FWD_ACTION && arg1 == cm
+//@ contract fwdhandleControlMessageNP
+//@   callsite[C04] C04.npfwdTakeOver (*process.Process).transitionLoopNP#1: arg0 == process && process.Providers == cm.Providers && process.Body == old(process.Body)
+// fwd self x, non-polarised: the forwarder hands its providers to x's provider over x's control channel and ends
+//@ contract (*ForwardForm).TransitionNP
+//@   callsite[C04] C04.npfwdCtl process.handleControlMessageNP#1: arg0 == process
+//@ contract (*ForwardForm).TransitionNP$1
+//@   callsite[C04] C04.npfwdEnds (*process.Process).terminateForward#1: arg0 == process
+
 // C19: a run starts from a clean environment, also when the caller hands in an environment that served an earlier run:
 // the counters are reset, the run's channels are made by this call, and the run's context descends from the background
 // context only (never from anything an earlier run left behind).
